@@ -17,13 +17,13 @@
 (*               (a tick of the maxAge/10 ticker: delete every record with    *)
 (*               LastSeen.Before(now - maxAge)), MgrGet (every record with    *)
 (*               LastSeen.After(oldest), in map order).                       *)
-(*  Ticker       fires on the grid Period, 2*Period, ... into a channel of    *)
-(*               capacity 1 (a tick nobody took is dropped).                  *)
-(*  Clock        Advance: now + 1.  With Timely = TRUE the ticker fires and   *)
-(*               the manager handles the tick before the clock advances past  *)
-(*               a grid point (a prompt manager: the premise of the "at the   *)
-(*               latest maxAge + one period later" clause); with FALSE ticks  *)
-(*               are handled arbitrarily late.                                *)
+(*  Clock        Advance: now + 1; the ticker fires when the clock reaches a  *)
+(*               grid point Period, 2*Period, ... into a channel of capacity  *)
+(*               1 (a tick nobody has taken is dropped).  With Timely = TRUE  *)
+(*               the manager handles a tick before the clock advances again   *)
+(*               (a prompt manager: the premise of the "at the latest maxAge  *)
+(*               + one period later" clause); with FALSE ticks are handled    *)
+(*               arbitrarily late.                                            *)
 (*                                                                           *)
 (* History variables give the statements something to talk about: H (the     *)
 (* API-level history of BadMetricsOps: bracket of every Add), lastc / consAt  *)
@@ -87,9 +87,9 @@ AddSend(p) ==
     /\ IF Len(In) < Cap THEN In' = Append(In, prec[p])
        ELSE /\ Mutant = "add_drops"          \* select { case b.In <- r: default: }
             /\ In' = In
-    /\ ppc' = [ppc EXCEPT ![p] = "idle"]
+    /\ ppc' = [ppc EXCEPT ![p] = "idle"] /\ prec' = [prec EXCEPT ![p] = None]
     /\ H' = [H EXCEPT !.a1[prec[p].a] = now]
-    /\ UNCHANGED <<now, seen, prec, rpc, rexp, rg0, tickc, nextTick, lastExp, lastc, consAt, consumed, kn, ob, dd,
+    /\ UNCHANGED <<now, seen, rpc, rexp, rg0, tickc, nextTick, lastExp, lastc, consAt, consumed, kn, ob, dd,
                    ngets, afail, bfail>>
 
 \* ------------------------------------------------------------------ readers
@@ -155,32 +155,31 @@ MgrGet(r) ==
                           (IF \E a \in Adds(H) : MustHave(H, kn, G, a, MaxAge) THEN {"levelA_must"} ELSE {}) \cup
                           (IF \E a \in Adds(H) : a \in consumed /\ ~ConsBy(H, kn, G, a) THEN {"consumed_but_not_provably"} ELSE {}) \cup
                           (IF Len(res) >= 2 THEN {"two_records"} ELSE {}))
-    /\ rpc' = [rpc EXCEPT ![r] = "idle"] /\ lastExp' = IF Mutant = "clean_last_get_expiry" THEN rexp[r] ELSE lastExp
-    /\ UNCHANGED <<now, In, seen, ppc, prec, rexp, rg0, tickc, nextTick, H, lastc, consAt, consumed, ngets>>
+    /\ rpc' = [rpc EXCEPT ![r] = "idle"] /\ rexp' = [rexp EXCEPT ![r] = 0] /\ rg0' = [rg0 EXCEPT ![r] = 0]
+    /\ lastExp' = IF Mutant = "clean_last_get_expiry" THEN rexp[r] ELSE lastExp
+    /\ UNCHANGED <<now, In, seen, ppc, prec, tickc, nextTick, H, lastc, consAt, consumed, ngets>>
 
 \* ------------------------------------------------------------------ ticker and clock
-TickFire == /\ now >= nextTick /\ tickc' = 1 /\ nextTick' = nextTick + Period
-            /\ UNCHANGED <<now, In, seen, ppc, prec, rpc, rexp, rg0, lastExp, H, lastc, consAt, consumed, kn, ob, dd, ngets,
-                           afail, bfail>>
+\* the clock; the ticker fires when the clock reaches a grid point (a tick nobody has taken yet is dropped)
 Advance == /\ now < MaxTime /\ now' = now + 1
-           /\ (Timely => now < nextTick /\ tickc = 0)
-           /\ UNCHANGED <<In, seen, ppc, prec, rpc, rexp, rg0, tickc, nextTick, lastExp, H, lastc, consAt, consumed, kn, ob,
+           /\ (Timely => tickc = 0)
+           /\ IF now + 1 = nextTick THEN tickc' = 1 /\ nextTick' = nextTick + Period ELSE UNCHANGED <<tickc, nextTick>>
+           /\ UNCHANGED <<In, seen, ppc, prec, rpc, rexp, rg0, lastExp, H, lastc, consAt, consumed, kn, ob,
                           dd, ngets, afail, bfail>>
 
 Mgr == MgrIn \/ MgrClean \/ \E r \in Readers : MgrGet(r)
 Next == \/ \E p \in Producers : (\E n \in Names : AddStart(p, n)) \/ AddSend(p)
         \/ \E r \in Readers, e \in Expiries : GetCall(r, e)
-        \/ Mgr \/ TickFire \/ Advance
+        \/ Mgr \/ Advance
 Spec == Init /\ [][Next]_vars
 \* fairness: the manager goroutine runs (each branch of its select that stays ready is eventually taken: Go picks
 \* uniformly among the ready cases); a sender blocked on In proceeds when there is room -- strong fairness, because
 \* another producer may take the slot first; the Go runtime queues blocked senders in FIFO order
 FairSpec == /\ Spec /\ WF_vars(MgrIn) /\ WF_vars(MgrClean) /\ \A r \in Readers : WF_vars(MgrGet(r))
             /\ \A p \in Producers : SF_vars(AddSend(p))
-            /\ WF_vars(TickFire)
 \* the same without the manager's In branch being fair: a full In then blocks Add for ever (the comment in New())
 UnfairSpec == /\ Spec /\ WF_vars(MgrClean) /\ \A r \in Readers : WF_vars(MgrGet(r))
-              /\ \A p \in Producers : SF_vars(AddSend(p)) /\ WF_vars(TickFire)
+              /\ \A p \in Producers : SF_vars(AddSend(p))
 
 \* ------------------------------------------------------------------ statements
 RecOK(x) == x = None \/ (x.a \in Adds(H) /\ x.n \in Names /\ x.t \in 0..MaxTime /\ x.f \in 0..MaxTime)
